@@ -362,7 +362,7 @@ class Session:
         ctx.count('op:' + kind)
         np = self.np
         self._check_kept()
-        if self.cfg.get('panel') and kind in ('PARTS', 'PER_OBS', 'SIM', 'H_NULL', 'SPLIT_PARTS', 'EXTRACT_PARTS', 'ROW_PARTS', 'REMOVE_REBUILD'):
+        if self.cfg.get('panel') and kind in ('PARTS', 'PER_OBS', 'SIM', 'SPLIT_PARTS', 'EXTRACT_PARTS', 'ROW_PARTS', 'REMOVE_REBUILD'):
             # cross-sectional comparisons: replaced by a plain evaluation on panel data
             kind, a = 'LLD', [a[0] if kind != 'PARTS' else 0, (a[1] if len(a) > 1 else a[0]) % 5, False, True, True]
         if kind == 'MAKE':
@@ -571,11 +571,22 @@ class Session:
             import biogeme.database as db
             k, xs, use_groups = a
             x = self.point(xs)
-            d0 = db.Database('whole', self.table.copy())
+            t0 = self.table.copy()
+            ik_ = self.cfg.get('index_kind')
+            if ik_ == 'dup':
+                t0.index = [i_ // 2 for i_ in range(len(t0))]      # row labels that repeat
+            elif ik_ == 'gaps':
+                t0.index = [3 * i_ + (i_ % 2) for i_ in range(len(t0))]
+            d0 = db.Database('whole', t0)
             folds = d0.split(k, groups='grp' if use_groups else None)
             tot = 0.0
             nrows = 0
             for f_ in folds:
+                # each estimation part is the rest of the table
+                if len(f_.estimation) + len(f_.validation) != self.N:
+                    ctx.fail('I04.parts', f'split({k}): an estimation part of {len(f_.estimation)} rows and its validation part of '
+                                          f'{len(f_.validation)} rows do not make the {self.N} rows of the table '
+                                          f'(row labels {list(t0.index)[:8]}...)')
                 if len(f_.validation) == 0:
                     continue
                 rec = self.make_object(1, None, table=f_.validation.reset_index(drop=True))
